@@ -356,8 +356,16 @@ class Interp:
                 self.unsupported(n)
             a, b = self.ev(n.left, L), self.ev(n.right, L)
             if isinstance(n.op, ast.Div):
+                if getattr(a, "_symexpr", False) or getattr(b, "_symexpr", False):
+                    try:
+                        return a / b
+                    except TypeError:
+                        self.unsupported(n, "division of unsupported values")
                 if isinstance(a, (Sym, Rec)) or isinstance(b, (Sym, Rec)):
                     return Sym("Div", (a, b))
+                from fractions import Fraction as _F
+                if isinstance(a, (int, _F)) and isinstance(b, (int, _F)) and b != 0:
+                    return _F(a) / _F(b)
                 self.unsupported(n, "true division")
             return self.binop(type(n.op), a, b, n)
         if isinstance(n, ast.Attribute):
